@@ -29,7 +29,10 @@ import core
 RULE = ("grids: every (algorithm, N) with algorithm in {ico, cube3D, randomS} and N in 4..30 plus seed-chosen larger N "
         "(quick) / every N in 4..162 plus {200,300,500,642} (thorough); each also as a randomly rotated copy fed to "
         "RotobjVoronoi (degenerate vertices then differ in the last bits and exercise the isclose re-indexing); "
-        "synthetic vertices/regions (exact duplicates, near-duplicates inside/outside the isclose tolerance, repeated "
+        "additionally randomS N in 200..300 (quick: 240 and three seed-chosen; thorough: every N 163..300), the grids with "
+        "the shortest Voronoi edges; "
+        "synthetic vertices/regions (exact duplicates, near-duplicates at separations log-uniform over 1e-12..1e-3 in one "
+        "coordinate / all coordinates / the norm, vanishing and tiny coordinates, antipodes, repeated "
         "region entries, out-of-range entries, more regions than centres, antipodal shared vertices) for the list logic. "
         "A grid case is non-trivial when it has at least one adjacent and one non-adjacent pair or a degenerate vertex; "
         "distinct by (kind, algorithm, N, rotation) resp. by the synthetic data")
@@ -51,37 +54,80 @@ def _rot_case(rng, alg, N):
     return {"kind": "rot", "alg": alg, "N": N, "q": [x / n for x in q]}
 
 
+def _unit(rng):
+    v = [rng.gauss(0, 1) for _ in range(3)]
+    n = math.sqrt(sum(x * x for x in v))
+    return [x / n for x in v]
+
+
+def _renorm(v):
+    n = math.sqrt(sum(x * x for x in v))
+    return [x / n for x in v]
+
+
+def _isclose_margin_ok(a, b):
+    """neither direction of np.isclose(a, b) (rtol 1e-5, atol 1e-8, per coordinate) is within 1e-6 (relative) of its
+    decision boundary, so the exact rational reading of the model and numpy's float evaluation must agree"""
+    for k, row in ((a, b), (b, a)):
+        for x, y in zip(k, row):
+            tol = 1e-8 + 1e-5 * abs(y)
+            if abs(abs(x - y) - tol) <= 1e-6 * tol:
+                return False
+    return True
+
+
+def _near_copy(rng, v):
+    """a near-duplicate of v at a separation log-uniform over 1e-12 .. 1e-3: in one coordinate, in all coordinates,
+    or in the norm.  Any change of the isclose tolerances (atol or rtol, up or down) flips some of these."""
+    for _ in range(20):
+        s = 10 ** rng.uniform(-12, -3)
+        mode = rng.choice(["one", "all", "norm"])
+        if mode == "one":
+            w = list(v)
+            w[rng.randrange(3)] += rng.choice([-1, 1]) * s
+            w = _renorm(w)
+        elif mode == "all":
+            w = _renorm([x + rng.choice([-1, 1]) * s * rng.uniform(0.3, 1.0) for x in v])
+        else:
+            f = 1 + rng.choice([-1, 1]) * s
+            w = [x * f for x in v]
+        if w != v and _isclose_margin_ok(v, w):
+            return w
+    return list(v)
+
+
 def _synthetic(rng):
-    """vertices with exact and near duplicates, arbitrary region lists"""
-    nv = rng.randint(4, 14)
+    """vertices with exact duplicates, near-duplicates at every scale and antipodes; arbitrary region lists"""
+    nv = rng.randint(4, 12)
     base = []
     for _ in range(nv):
-        v = [rng.gauss(0, 1) for _ in range(3)]
-        n = math.sqrt(sum(x * x for x in v))
-        base.append([x / n for x in v])
-    verts = []
-    for v in base:
-        verts.append(v)
-    extra = rng.randint(0, 6)
-    for _ in range(extra):
-        v = list(rng.choice(verts))
-        mode = rng.choice(["exact", "exact", "near", "near", "far", "antipode"])
-        if mode == "near":      # well inside isclose (atol 1e-8 + rtol 1e-5 |b|): at most 4e-9 per coordinate
-            v = [x + rng.uniform(-4e-9, 4e-9) for x in v]
-        elif mode == "far":     # well outside: one coordinate moves by >= 1e-4 (tolerance is <= 1.1e-5)
-            k = rng.randrange(3)
-            v[k] += rng.choice([-1, 1]) * rng.uniform(1e-4, 1e-3)
-            n = math.sqrt(sum(x * x for x in v))      # keep unit norm (dist_on_sphere asserts equal norms)
-            v = [x / n for x in v]
+        v = _unit(rng)
+        r = rng.random()
+        if r < 0.15:        # a vanishing coordinate: there the absolute tolerance alone decides
+            v[rng.randrange(3)] = 0.0
+            v = _renorm(v)
+        elif r < 0.35:      # a tiny coordinate
+            v[rng.randrange(3)] = rng.choice([-1, 1]) * 10 ** rng.uniform(-10, -2)
+            v = _renorm(v)
+        base.append(v)
+    verts = [(v, k) for k, v in enumerate(base)]          # (vertex, family)
+    has_near = set()
+    for _ in range(rng.randint(0, 7)):
+        v, fam = rng.choice(verts)
+        mode = rng.choice(["exact", "near", "near", "near", "antipode"])
+        if mode == "near":
+            if fam in has_near:           # one non-exact copy per family keeps `isclose` an equivalence on the case
+                continue
+            has_near.add(fam)
+            v = _near_copy(rng, v)
         elif mode == "antipode":
-            v = [-x for x in v]
-        verts.insert(rng.randint(0, len(verts)), v)
+            if fam in has_near:
+                has_near.add(("anti", fam))
+            v, fam = [-x for x in v], ("anti", fam)
+        verts.insert(rng.randint(0, len(verts)), (list(v), fam))
+    verts = [v for v, _ in verts]
     ncent = rng.randint(2, 8)
-    centers = []
-    for _ in range(ncent):
-        v = [rng.gauss(0, 1) for _ in range(3)]
-        n = math.sqrt(sum(x * x for x in v))
-        centers.append([x / n for x in v])
+    centers = [_unit(rng) for _ in range(ncent)]
     nreg = ncent if rng.random() < 0.9 else ncent + rng.randint(1, 2)
     regions = []
     for _ in range(nreg):
@@ -101,7 +147,7 @@ def cases(ctx):
         Ns = list(range(4, 31))
         big = sorted(rng.sample(range(31, 121), 5)) + [rng.choice([162, 200])]
         rotNs = {"ico": [6, 7, 8, 12, 20, 26, 30], "cube3D": [6, 7, 8, 12, 13, 20, 26], "randomS": [4, 5, 9, 17]}
-        nsyn = 250
+        nsyn = 400
     else:
         Ns = list(range(4, 163)) + [200, 300, 500, 642]
         big = []
@@ -110,6 +156,12 @@ def cases(ctx):
     for alg in ALGS:
         for N in Ns + big:
             yield {"kind": "grid", "alg": alg, "N": N}
+    # randomS in 200..300: the explored grids with the shortest Voronoi edges (1.66e-5 for 205 <= N <= 271), i.e. the
+    # ones closest to the isclose re-indexing tolerance
+    dense = sorted(set([240] + rng.sample(range(200, 301), 3))) if ctx.quick else list(range(163, 301))
+    for N in dense:
+        if N not in Ns + big:
+            yield {"kind": "grid", "alg": "randomS", "N": N}
     for alg in ALGS:
         extra = sorted(rng.sample(range(4, 80), 6)) if ctx.quick else []
         for N in sorted(set(rotNs[alg] + extra)):
@@ -238,6 +290,23 @@ def _angle_ok(value, d, n1, n2):
     return False
 
 
+def _near_parallel(nv, nr):
+    """two distinct reduced vertices that some region pair could share are parallel/antipodal within 1e-7 but not
+    exactly (exactly parallel rows have rank 1 in both readings)"""
+    used = sorted({x for r in nr for x in r})
+    if len(used) < 2:
+        return False
+    A = np.asarray(nv, dtype=float).reshape(-1, 3)[used]
+    cr = np.linalg.norm(np.cross(A[:, None, :], A[None, :, :]), axis=2)
+    for a, b in np.argwhere(np.triu(cr < 1e-7, 1)):
+        x = [Fraction(float(v)) for v in A[a]]
+        y = [Fraction(float(v)) for v in A[b]]
+        c = (x[1] * y[2] - x[2] * y[1], x[2] * y[0] - x[0] * y[2], x[0] * y[1] - x[1] * y[0])
+        if any(v != 0 for v in c):
+            return True
+    return False
+
+
 def _max_shared(nr):
     m = 0
     sets = [set(r) for r in nr]
@@ -289,8 +358,20 @@ def compare(ctx, case, out, mouts):
     # --- the three matrices --------------------------------------------------------------------
     N = len(out["centers"])
     m3 = _max_shared(ir["ok"]["nr"])
+    near_parallel = _near_parallel(ir["ok"]["nv"], ir["ok"]["nr"]) if case["kind"] == "synthetic" else False
+    norm_spread = float(np.abs(np.linalg.norm(np.asarray(out["vertices"], dtype=float).reshape(-1, 3), axis=1) - 1).max(initial=0))
     for name in ("adj", "border", "dist", "adj2"):
         io, mo = out[name], m["adj" if name == "adj2" else name]
+        if name == "border" and case["kind"] == "synthetic" and norm_spread > 2e-6:
+            # dist_on_sphere asserts equal norms (allclose 1e-5); not modelled - synthetic norm-scaled copies only
+            ctx.branch("border_not_compared_norm_spread")
+            continue
+        if name == "border" and case["kind"] == "synthetic" and near_parallel:
+            # `matrix_rank(shared, tol=1e-9) == 2` is a floating-point threshold on the singular values; the model reads
+            # it exactly (two independent rows).  The readings differ only for two distinct reduced vertices that are
+            # parallel/antipodal within ~1e-9 (synthetic antipodes of near-duplicates); exactly antipodal is compared
+            ctx.branch("border_not_compared_near_parallel_vertices")
+            continue
         if name == "border" and m3 >= 3:
             # three or more shared vertices: numpy's rank decision is a floating-point threshold and the pair the code
             # picks depends on CPython's set order; the model's exact reading is not comparable here
@@ -412,15 +493,75 @@ def _near(value, truth):
     return abs(math.cos(value) - math.cos(truth)) <= 1e-14
 
 
+def reindex_clause(case, out, tag):
+    """Independent of the model: two scipy vertices that numpy's default `np.isclose` (rtol 1e-5, atol 1e-8, per
+    coordinate) does not identify must keep different reduced indices, those it identifies must share one, and the
+    reduced vertex an entry points to must be close to the original vertex.  Evaluated on the implementation's own
+    vertices / regions / reduced vertices / reduced regions."""
+    fails, st = [], {}
+    red = out.get("reduce", {})
+    if "ok" not in red:
+        return fails, st
+    V = np.asarray(out["vertices"], dtype=float).reshape(-1, 3)
+    NV = np.asarray(red["ok"]["nv"], dtype=float).reshape(-1, 3)
+    regions, nr = out["regions"], red["ok"]["nr"]
+    if len(regions) != len(nr) or any(len(a) != len(b) for a, b in zip(regions, nr)):
+        fails.append((f"C03:{tag}:reindex:shape", "reduced regions do not have the shape of the regions", None, None))
+        return fails, st
+    new = {}
+    for r, r2 in zip(regions, nr):
+        for el, k in zip(r, r2):
+            if new.setdefault(el, k) != k:
+                fails.append((f"C03:{tag}:reindex:inconsistent", f"vertex {el} is re-indexed to {new[el]} and to {k}", None, None))
+                return fails, st
+    used = sorted(new)
+    if not used:
+        return fails, st
+    if max(used) >= len(V) or max(new.values()) >= len(NV) or min(new.values()) < 0:
+        fails.append((f"C03:{tag}:reindex:range", "re-indexed entry out of range", None, None))
+        return fails, st
+    U = V[used]
+    c = np.all(np.isclose(U[:, None, :], U[None, :, :]), axis=2)        # c[a, b] = isclose(k = U[a], row = U[b])
+    both, either = c & c.T, c | c.T
+    st["reindex_vertex_pairs"] = len(used) * (len(used) - 1) // 2
+    st["reindex_close_pairs"] = int((both.sum() - len(used)) // 2)
+    # is `isclose` an equivalence on this vertex set?  (symmetric, and close-to-close implies close)
+    reach = both.astype(int)
+    if (either != both).any() or ((reach @ reach > 0) != both).any():
+        st["reindex_clause_excluded_not_an_equivalence"] = 1
+        return fails, st
+    idx = np.array([new[el] for el in used])
+    same = idx[:, None] == idx[None, :]
+    bad = np.argwhere(same != both)
+    if len(bad):
+        a, b = (int(x) for x in bad[0])
+        ea, eb = used[a], used[b]
+        what = (f"scipy vertices {ea} and {eb} differ by {np.abs(V[ea] - V[eb]).max():.3e} (not identified by np.isclose) but "
+                f"share reduced index {int(idx[a])}" if same[a, b] else
+                f"scipy vertices {ea} and {eb} are identified by np.isclose but get reduced indices {int(idx[a])} and {int(idx[b])}")
+        fails.append((f"C03:{tag}:reindex:{ea},{eb}", what, bool(both[a, b]), bool(same[a, b])))
+        return fails, st
+    rep = NV[idx]
+    notclose = ~np.all(np.isclose(U, rep), axis=1)
+    if notclose.any():
+        a = int(np.argmax(notclose))
+        fails.append((f"C03:{tag}:reindex:representative:{used[a]}", f"vertex {used[a]} is re-indexed to reduced vertex "
+                      f"{int(idx[a])}, which is not close to it", V[used[a]].tolist(), rep[a].tolist()))
+    return fails, st
+
+
 def oracle_eval(case, out):
     """-> (list of failures (key, what, expected, observed), stats dict).  Pure; runs in worker processes."""
     fails, st = [], {}
     if case["kind"] == "synthetic":
-        return fails, st
+        return reindex_clause(case, out, "synthetic")
     tag = f"{case['kind']}:{case['alg']}_{case['N']}"
     if "build_err" in out:
         fails.append((f"C03:{tag}:exception", f"building the grid / its Voronoi object raised {out['build_err']}", None, None))
         return fails, st
+    f0, s0 = reindex_clause(case, out, tag)
+    fails.extend(f0)
+    st.update(s0)
     P = out["P"]
     N = len(P)
     mats = {}
@@ -496,8 +637,13 @@ def oracle_eval(case, out):
     st["adjacent_pairs"] = int(true_adj[iu, ju].sum())
     st["zero_length_contacts"] = int(((np.abs(L[iu, ju]) < ZERO_MAX)).sum())
     st["ambiguous_excluded"] = amb
-    pos = L[iu, ju][L[iu, ju] > ZERO_MAX]
-    st["min_positive_arc"] = float(pos.min()) if len(pos) else None
+    Lu = np.where(L[iu, ju] > ZERO_MAX, L[iu, ju], np.inf)
+    if np.isfinite(Lu).any():
+        k = int(np.argmin(Lu))
+        st["min_positive_arc"] = float(Lu[k])
+        st["min_positive_arc_pair"] = [int(iu[k]), int(ju[k])]
+    else:
+        st["min_positive_arc"] = None
     # areas
     if "err" in out["areas"]:
         fails.append((f"C03:{tag}:exception:areas", f"get_voronoi_volumes raised {out['areas']['err']}", None, None))
@@ -528,13 +674,25 @@ def oracle(ctx, case, out, res=None):
     fails, st = res if res is not None else oracle_eval(case, out)
     for key, what, exp, obs in fails:
         ctx.fail(key, what, case, exp, obs)
-    for k in ("pairs", "adjacent_pairs", "zero_length_contacts", "ambiguous_excluded"):
+    for k in ("pairs", "adjacent_pairs", "zero_length_contacts", "ambiguous_excluded", "reindex_vertex_pairs",
+              "reindex_close_pairs", "reindex_clause_excluded_not_an_equivalence"):
         if st.get(k):
             ctx.branch("oracle_" + k, st[k])
     if st.get("min_positive_arc") is not None:
-        cur = ctx.extra_cov.get("min_positive_arc_length")
-        if cur is None or st["min_positive_arc"] < cur[0]:
-            ctx.extra_cov["min_positive_arc_length"] = [st["min_positive_arc"], f"{case['kind']}:{case['alg']}_{case['N']}"]
+        # the shortest Voronoi edges of the explored grids: how close they come to the isclose tolerance (~1e-5)
+        # (one line per distinct arc: the same short edge persists over a range of N of one algorithm)
+        lst = ctx.extra_cov.setdefault("smallest_positive_arcs_[length,first_grid,pair,n_grids]", [])
+        tag = f"{case['kind']}:{case['alg']}_{case['N']}"
+        for t in lst:
+            if abs(t[0] - st["min_positive_arc"]) <= 1e-12 and t[1].split("_")[0] == tag.split("_")[0]:
+                t[3] += 1
+                if case["N"] < int(t[1].rsplit("_", 1)[1]):
+                    t[1] = tag
+                break
+        else:
+            lst.append([st["min_positive_arc"], tag, st.get("min_positive_arc_pair"), 1])
+        lst.sort(key=lambda t: (t[0], t[1]))
+        del lst[8:]
 
 
 # ------------------------------------------------------------------------------------------------
